@@ -41,6 +41,8 @@ func c10Offenders() []c10Offender {
 		{Name: "link-out-of-bundle", Nodes: []gen.NodeSpec{l("mod/esc", "../../../outside-file")}, Bad: true},
 		{Name: "link-absolute-outside", Nodes: []gen.NodeSpec{l("abs", "/c10/outside-file")}, Bad: true},
 		{Name: "link-absolute-etc", Nodes: []gen.NodeSpec{l("abs", "/etc/passwd")}, Bad: true},
+		{Name: "link-absolute-into-the-package-where-it-is-being-prepared", Nodes: []gen.NodeSpec{l("abs-self", "{TMPSELF}/main.tf")}, Bad: true},
+		{Name: "link-absolute-to-a-directory-of-the-package-where-it-is-being-prepared", Nodes: []gen.NodeSpec{l("mod/abs-self-dir", "{TMPSELF}/mod/sub")}, Bad: true},
 		{Name: "link-to-manifest", Nodes: []gen.NodeSpec{l("m", "../terraform-sources.json")}, Bad: true},
 		{Name: "link-to-file-of-already-installed-sibling-package", Nodes: []gen.NodeSpec{l("peer.tf", "../{SIBLING}/main.tf")}, Bad: true},
 		{Name: "link-dangling", Nodes: []gen.NodeSpec{l("mod/dangling", "no-such-file")}, Bad: true},
@@ -86,12 +88,17 @@ var c10Alias = false
 
 func c10World(off c10Offender, position int, extraOff *c10Offender) gen.World {
 	w := gen.World{Finders: 1}
-	for i := 0; i < 3; i++ {
+	// packages 3 and 4 are clean bystanders: the added package names them
+	// before and after package 1, so that whichever way the builder works
+	// through its queue, something is still waiting when package 1 is refused
+	for i := 0; i < 5; i++ {
 		files := map[string]string{gen.MarkerFile: fmt.Sprintf("content-%d\n", i), "main.tf": fmt.Sprintf("root %d", i), "mod/main.tf": "m", "mod/sub/main.tf": "s", "other/main.tf": "o"}
 		w.Remotes = append(w.Remotes, gen.RemotePkg{Base: fmt.Sprintf("git::https://example.com/c10p%d.git", i), Content: i, Files: files, Deps: map[string][]gen.Dep{}})
 	}
 	w.Registry = []gen.RegistryPkg{{Addr: "example.com/ns/c10/sys", Versions: []gen.RegVersion{{V: "1.0.0", Source: gen.SrcRef{Pkg: 2}}}}}
-	w.Remotes[0].Deps[gen.DepKey("", 0)] = []gen.Dep{{Kind: "remote", Remote: gen.SrcRef{Pkg: 1}}, {Kind: "registry", Reg: 0}}
+	w.Remotes[0].Deps[gen.DepKey("", 0)] = []gen.Dep{{Kind: "remote", Remote: gen.SrcRef{Pkg: 3}}, {Kind: "remote", Remote: gen.SrcRef{Pkg: 1}},
+		// the same package once more, by another module location
+		{Kind: "remote", Remote: gen.SrcRef{Pkg: 1, Sub: "mod"}}, {Kind: "remote", Remote: gen.SrcRef{Pkg: 4}}, {Kind: "registry", Reg: 0}}
 	w.Adds = []gen.Add{{Kind: "remote", Remote: gen.SrcRef{Pkg: 0}}}
 	place := func(pi int, o c10Offender) {
 		w.Remotes[pi].Extras = append(w.Remotes[pi].Extras, o.Nodes...)
@@ -153,6 +160,7 @@ func c10Expect(p gen.RemotePkg, scratch string) (bad bool, why string) {
 	for i, n := range p.Extras {
 		n.Target = strings.ReplaceAll(n.Target, "{SELF}", "SELFDIR")
 		n.Target = strings.ReplaceAll(n.Target, "{SIBLING}", "some-sibling-package")
+		n.Target = strings.ReplaceAll(n.Target, "{TMPSELF}", root)
 		ex[i] = n
 	}
 	if err := gen.Materialise(root, gen.TreeSpec{Nodes: ex}); err != nil {
@@ -248,6 +256,10 @@ func c10Run(env *fw.Env, off c10Offender, position int, extra *c10Offender) fw.R
 	os.Chmod("/c10/outside-dir", 0750)
 	mustWrite("/c10/sibling-data", "OUTSIDE-sibling", 0644)
 	mustWrite("/etc/passwd", "OUTSIDE-passwd", 0644)
+	// places a builder that has lost track of its target directory would use
+	os.MkdirAll("/tmp", 01777)
+	os.Chdir("/c10")
+	defer os.Chdir("/")
 	target := "/c10/bundle"
 	// independent expectation per package
 	anyBad := false
@@ -426,7 +438,7 @@ func init() {
 	fw.Register(&fw.Property{
 		ID:    "C10",
 		Level: "exploration",
-		Rule: "a three-package world (added package -> remote dependency, -> registry target) is built inside a chroot arena; one of 42 shapes is planted in one package (exhaustive x 3 positions) or two shapes in two packages (all ordered pairs): clean relative links and chains, links to a sibling / out of the bundle / absolute / to the manifest / dangling / looping / through the directory's own name, fifos, sockets, links to fifos, offenders hidden by ignore rules, links into ignored directories sorted before and after the directory, re-included files, rule files with negations. " +
+		Rule: "a three-package world (added package -> remote dependency, -> registry target) is built inside a chroot arena; one of 44 shapes is planted in one package (exhaustive x 3 positions) or two shapes in two packages (all ordered pairs): clean relative links and chains, links to a sibling / out of the bundle / absolute / to the manifest / dangling / looping / through the directory's own name, fifos, sockets, links to fifos, offenders hidden by ignore rules, links into ignored directories sorted before and after the directory, re-included files, rule files with negations. " +
 			"Independent expectation: the tree is materialised by the harness, reference-excluded paths are removed, remaining links are resolved physically; an offender left => the build must fail, otherwise it must succeed and every package directory of the bundle must contain only files, directories and links resolving to an existing file/directory inside it, no reference-excluded file, no .tmp-* directory; snapshot diff around the target directory. non-trivial = every case; distinct = shapes x position",
 		Assumptions: []string{"a link into an ignored (and therefore removed) directory is a dangling link of the finished package", "links to in-package directories are not part of the universe (hashing them fails today; either outcome would be acceptable)"},
 		Phases:      []*fw.Phase{single, aliased, history, pairs},
